@@ -338,6 +338,11 @@ fn run_history(out: &mut impl Write, ctx: &mut Ctx, fakes: &[(usize, u32)], ops:
                     }
                 };
                 shim::start_log();
+                // an entry that spans two pages: the OS serves one more `mprotect` and refuses every later one
+                // (the second page is not ours to change).  One request covering both pages is all an installation needs.
+                if ta % arena::PAGE + 5 > arena::PAGE && *f % 2 == 0 {
+                    shim::mprotect_budget(Some(1));
+                }
                 let mut fake_addr = fa;
                 let res = {
                     let injr = &mut *injr;
@@ -370,6 +375,7 @@ fn run_history(out: &mut impl Write, ctx: &mut Ctx, fakes: &[(usize, u32)], ops:
                         }
                     }))
                 };
+                shim::mprotect_budget(None);
                 let evs = shim::stop_log();
                 line.push_str(&format!(" I x{} {} {:x} {:x}", kind, t, fake_addr, fk));
                 finish_install(&mut line, ctx, inj.as_ref().unwrap(), before, res, &evs);
